@@ -84,26 +84,24 @@ theorem boundEq_of_same (eo : EqOracle) (b b' : Bound) (h : boundSame eo b b' = 
 mutual
 theorem veq_norm (eo : EqOracle) : ∀ (v w : V), source v = true → source w = true →
     sameUpTo eo v w = true → k9 eo v w = false → coherent eo v w = true →
-    (eo.purge = false ∨ hasRe v = false) → veq eo (norm v) (norm w) = .t
-  | .instOf t, w, _, _, hs, _, _, _ => by
+    veq eo (norm v) (norm w) = .t
+  | .instOf t, w, _, _, hs, _, _ => by
       cases w <;> simp [sameUpTo] at hs
       simp [norm, veq, hs]
-  | .matchesRe r fl fn, w, _, _, hs, _, hc, hp => by
+  | .matchesRe r fl fn, w, _, _, hs, _, hc => by
       cases w <;> simp [sameUpTo] at hs
       obtain ⟨⟨h1, h2⟩, h3⟩ := hs
       subst h2 h3
       simp [coherent, h1] at hc
-      simp [hasRe] at hp
-      simp [norm, veq, pand_t, hc, hp, PrimRes.ofBool]
-  | .optional v, w, h1, h2, hs, hk, hc, hp => by
+      simp [norm, veq, pand_t, hc, PrimRes.ofBool]
+  | .optional v, w, h1, h2, hs, hk, hc => by
       cases w <;> simp [sameUpTo] at hs
       rename_i v'
       simp only [source] at h1 h2
       simp only [k9] at hk
       simp only [coherent] at hc
-      simp only [hasRe] at hp
-      simpa [norm, veq] using veq_norm eo v v' h1 h2 hs hk hc hp
-  | .optionalSeq t vs, w, h1, h2, hs, hk, hc, hp => by
+      simpa [norm, veq] using veq_norm eo v v' h1 h2 hs hk hc
+  | .optionalSeq t vs, w, h1, h2, hs, hk, hc => by
       cases w <;> simp [sameUpTo] at hs
       rename_i t' vs'
       obtain ⟨ht, hs⟩ := hs
@@ -111,103 +109,95 @@ theorem veq_norm (eo : EqOracle) : ∀ (v w : V), source v = true → source w =
       simp only [source] at h1 h2
       simp only [k9] at hk
       simp only [coherent] at hc
-      simp only [hasRe] at hp
-      have := (veqL_norm eo vs vs' h1 h2 hs hk hc hp).1 t
+      have := (veqL_norm eo vs vs' h1 h2 hs hk hc).1 t
       simpa [norm, veq] using this
-  | .in_ p, w, _, _, hs, hk, _, _ => by
+  | .in_ p, w, _, _, hs, hk, _ => by
       cases w <;> simp [sameUpTo] at hs
       simp [k9, hs] at hk
       simp [norm, veq, pand_t, hs, hk]
-  | .isCallable, w, _, _, hs, _, _, _ => by
+  | .isCallable, w, _, _, hs, _, _ => by
       cases w <;> simp [sameUpTo] at hs
       simp [norm, veq]
-  | .deepIter m it, w, h1, h2, hs, hk, hc, hp => by
+  | .deepIter m it, w, h1, h2, hs, hk, hc => by
       cases w <;> simp [sameUpTo] at hs
       rename_i m' it'
       simp [source] at h1 h2
       simp [k9] at hk
       simp [coherent] at hc
-      simp [hasRe] at hp
-      have a := veq_norm eo m m' h1.1 h2.1 hs.1 hk.1 hc.1 (hp.imp_right (·.1))
-      have b := veq_norm eo it it' h1.2 h2.2 hs.2 hk.2 hc.2 (hp.imp_right (·.2))
+      have a := veq_norm eo m m' h1.1 h2.1 hs.1 hk.1 hc.1
+      have b := veq_norm eo it it' h1.2 h2.2 hs.2 hk.2 hc.2
       simp [norm, veq, pand_t, a, b]
-  | .deepIterSeq t ms it, w, h1, h2, hs, hk, hc, hp => by
+  | .deepIterSeq t ms it, w, h1, h2, hs, hk, hc => by
       cases w <;> simp [sameUpTo] at hs
       rename_i t' ms' it'
       simp [source] at h1 h2
       simp [k9] at hk
       simp [coherent] at hc
-      simp [hasRe] at hp
-      have a := (veqL_norm eo ms ms' h1.1 h2.1 hs.1.2 hk.1 hc.1 (hp.imp_right (·.1))).2.1
-      have b := veq_norm eo it it' h1.2 h2.2 hs.2 hk.2 hc.2 (hp.imp_right (·.2))
+      have a := (veqL_norm eo ms ms' h1.1 h2.1 hs.1.2 hk.1 hc.1).2.1
+      have b := veq_norm eo it it' h1.2 h2.2 hs.2 hk.2 hc.2
       simp [norm, veq, pand_t, a, b]
-  | .deepMap k v m, w, h1, h2, hs, hk, hc, hp => by
+  | .deepMap k v m, w, h1, h2, hs, hk, hc => by
       cases w <;> simp [sameUpTo] at hs
       rename_i k' v' m'
       simp [source] at h1 h2
       simp [k9] at hk
       simp [coherent] at hc
-      simp [hasRe] at hp
-      have a := veq_norm eo k k' h1.1.1 h2.1.1 hs.1.1 hk.1.1 hc.1.1 (hp.imp_right (·.1.1))
-      have b := veq_norm eo v v' h1.1.2 h2.1.2 hs.1.2 hk.1.2 hc.1.2 (hp.imp_right (·.1.2))
-      have c := veq_norm eo m m' h1.2 h2.2 hs.2 hk.2 hc.2 (hp.imp_right (·.2))
+      have a := veq_norm eo k k' h1.1.1 h2.1.1 hs.1.1 hk.1.1 hc.1.1
+      have b := veq_norm eo v v' h1.1.2 h2.1.2 hs.1.2 hk.1.2 hc.1.2
+      have c := veq_norm eo m m' h1.2 h2.2 hs.2 hk.2 hc.2
       simp [norm, veq, pand_t, a, b, c]
-  | .num op b, w, _, _, hs, _, _, _ => by
+  | .num op b, w, _, _, hs, _, _ => by
       cases w <;> simp [sameUpTo] at hs
       simp [norm, veq, pand_t, hs, PrimRes.ofBool]
-  | .maxLen b, w, _, _, hs, _, _, _ => by
+  | .maxLen b, w, _, _, hs, _, _ => by
       cases w <;> simp [sameUpTo] at hs
       simp [norm, veq, boundEq_of_same eo _ _ hs]
-  | .minLen b, w, _, _, hs, _, _, _ => by
+  | .minLen b, w, _, _, hs, _, _ => by
       cases w <;> simp [sameUpTo] at hs
       simp [norm, veq, boundEq_of_same eo _ _ hs]
-  | .not_ v m e, w, h1, h2, hs, hk, hc, hp => by
+  | .not_ v m e, w, h1, h2, hs, hk, hc => by
       cases w <;> simp [sameUpTo] at hs
       rename_i v' m' e'
       simp only [source] at h1 h2
       simp only [k9] at hk
       simp only [coherent] at hc
-      simp only [hasRe] at hp
-      have a := veq_norm eo v v' h1 h2 hs.1.1 hk hc hp
+      have a := veq_norm eo v v' h1 h2 hs.1.1 hk hc
       simp [norm, veq, pand_t, a, hs.1.2, hs.2, PrimRes.ofBool]
-  | .or_ vs, w, h1, h2, hs, hk, hc, hp => by
+  | .or_ vs, w, h1, h2, hs, hk, hc => by
       cases w <;> simp [sameUpTo] at hs
       rename_i vs'
       simp only [source] at h1 h2
       simp only [k9] at hk
       simp only [coherent] at hc
-      simp only [hasRe] at hp
-      have := (veqL_norm eo vs vs' h1 h2 hs hk hc hp).2.2
+      have := (veqL_norm eo vs vs' h1 h2 hs hk hc).2.2
       simpa [norm, veq] using this
-  | .and_ vs, w, h1, h2, hs, hk, hc, hp => by
+  | .and_ vs, w, h1, h2, hs, hk, hc => by
       cases w <;> simp [sameUpTo] at hs
       rename_i vs'
       simp only [source] at h1 h2
       simp only [k9] at hk
       simp only [coherent] at hc
-      simp only [hasRe] at hp
-      have := (veqL_norm eo vs vs' h1 h2 hs hk hc hp).2.1
+      have := (veqL_norm eo vs vs' h1 h2 hs hk hc).2.1
       simpa [norm, veq] using this
-  | .andRaw _ _, _, h1, _, _, _, _, _ => by simp [source] at h1
-  | .probe p r, w, _, _, hs, _, _, _ => by
+  | .andRaw _ _, _, h1, _, _, _, _ => by simp [source] at h1
+  | .probe p r, w, _, _, hs, _, _ => by
       cases w <;> simp [sameUpTo] at hs
       simp [norm, veq, hs, PrimRes.ofBool]
-  | .junk, w, _, _, hs, _, _, _ => by
+  | .junk, w, _, _, hs, _, _ => by
       cases w <;> simp [sameUpTo] at hs
       simp [norm, veq]
-  | .noneV, w, _, _, hs, _, _, _ => by
+  | .noneV, w, _, _, hs, _, _ => by
       cases w <;> simp [sameUpTo] at hs
       simp [norm, veq]
 theorem veqL_norm (eo : EqOracle) : ∀ (vs ws : List V), sourceL vs = true → sourceL ws = true →
     sameUpToL eo vs ws = true → k9L eo vs ws = false → coherentL eo vs ws = true →
-    (eo.purge = false ∨ hasReL vs = false) →
     (∀ t, veqL eo t (normL vs) (normL ws) = .t) ∧
     veqL eo true ((normL vs).flatMap andItems) ((normL ws).flatMap andItems) = .t ∧
     veqL eo true ((normL vs).flatMap orItems) ((normL ws).flatMap orItems) = .t
-  | [], ws, _, _, hs, _, _, _ => by
+  | [], ws, _, _, hs, _, _ => by
       cases ws <;> simp [sameUpToL] at hs
       simp [normL, veqL, PrimRes.ofBool]
-  | v :: vs, ws, h1, h2, hs, hk, hc, hp => by
+  | v :: vs, ws, h1, h2, hs, hk, hc => by
       cases ws with
       | nil => simp [sameUpToL] at hs
       | cons w ws =>
@@ -215,9 +205,8 @@ theorem veqL_norm (eo : EqOracle) : ∀ (vs ws : List V), sourceL vs = true → 
         simp [sourceL] at h1 h2
         simp [k9L] at hk
         simp [coherentL] at hc
-        simp [hasReL] at hp
-        have a := veq_norm eo v w h1.1 h2.1 hs.1 hk.1 hc.1 (hp.imp_right (·.1))
-        have b := veqL_norm eo vs ws h1.2 h2.2 hs.2 hk.2 hc.2 (hp.imp_right (·.2))
+        have a := veq_norm eo v w h1.1 h2.1 hs.1 hk.1 hc.1
+        have b := veqL_norm eo vs ws h1.2 h2.2 hs.2 hk.2 hc.2
         have hl := sameUpToL_length eo vs ws hs.2
         refine ⟨?_, ?_, ?_⟩
         · intro t
